@@ -32,7 +32,7 @@ func TestC02(t *testing.T) {
 	nrun.Main(t, &nrun.Check{
 		ID: "C02", TestName: "TestC02", Plans: plans(), KeyOf: iscen.KeyOf("C02"),
 		QuickTime: 110 * time.Second, ThorTime: 20 * time.Minute,
-		Rule:   "engine N: every order of Produce calls, a leader move, request/response frame deliveries, timer ticks and injected faults (produce: connection kill before/after handling, NOT_LEADER, NOT_ENOUGH_REPLICAS, REQUEST_TIMED_OUT before and after append, NOT_ENOUGH_REPLICAS_AFTER_APPEND, stalled request; metadata/InitProducerID: kill before/after) within k deviations of the default order, for four hand-written idempotent-producer scenarios (one record per batch, pipelined requests; two partitions on two brokers; small RecordRetries + RecordDeliveryTimeout; single partition; AllowIdempotentProduceCancellation with a cancelled record context), plus the generated family IG: every combination of 7 producer configurations (linger 0 or 5ms x a batch per record or shared batches; RecordRetries 1; RecordDeliveryTimeout 5s; StopProducerOnDataLossDetected) x 2 initial placements (t/0 and t/1 on two brokers or on one) x producing script (3 Produce calls over the two partitions with at most one Flush / short think / long think between calls: 56 quick; 3 to 5 calls: 576 thorough) x environment option (nothing; leader of t/1 moves after the g-th script item; moves and moves back after the next item or right after the next Produce request reached a broker; all client connections die right after the next Produce request reached a broker), on the default schedule, and every single deviation below a stated representative subset of combinations (time-capped); distinct = distinct terminal outcomes (per-record promise class and number of Produce requests that carried the record, plus final log contents) per scenario",
+		Rule:   "engine N: every order of Produce calls, a leader move, request/response frame deliveries, timer ticks and injected faults (produce: connection kill before/after handling, NOT_LEADER, NOT_ENOUGH_REPLICAS, REQUEST_TIMED_OUT before and after append, NOT_ENOUGH_REPLICAS_AFTER_APPEND, stalled request; metadata/InitProducerID: kill before/after) within k deviations of the default order, for four hand-written idempotent-producer scenarios (one record per batch, pipelined requests; two partitions on two brokers; small RecordRetries + RecordDeliveryTimeout; single partition; AllowIdempotentProduceCancellation with a cancelled record context), plus the generated family IG: every combination of 7 producer configurations (linger 0 or 5ms x a batch per record or shared batches; RecordRetries 1; RecordDeliveryTimeout 5s; StopProducerOnDataLossDetected) x 2 initial placements (t/0 and t/1 on two brokers or on one) x producing script (3 Produce calls over the two partitions with at most one Flush / short think / long think between calls: 56 quick; 3 to 5 calls: 272 thorough) x environment option (nothing; leader of t/1 moves after the g-th script item; moves and moves back after the next item or right after the next Produce request reached a broker; all client connections die right after the next Produce request reached a broker), on the default schedule, and every single deviation below a stated representative subset of combinations (time-capped); distinct = distinct terminal outcomes (per-record promise class and number of Produce requests that carried the record, plus final log contents) per scenario",
 		Assume: []string{"kfake is the broker, including its duplicate window (C29/C32 check that)", "synctests build of xsync (C31 covers the channel mutexes)", "goroutine micro-interleavings inside one event are the Go runtime's"},
 	})
 }
